@@ -36,6 +36,7 @@ type res struct {
 	Sent      []uint16 `json:"arrival_order"`
 	Delivered []uint16 `json:"delivered"`
 	Lost      uint64   `json:"lost_reported"`
+	WrongData []string `json:"delivered_with_other_content,omitempty"`
 	Fail      string   `json:"fail,omitempty"`
 	Msg       string   `json:"msg,omitempty"`
 	Err       string   `json:"harness_error,omitempty"`
@@ -56,7 +57,20 @@ func pkt(seq uint16) []byte {
 
 const sdp = "v=0\r\no=- 0 0 IN IP4 127.0.0.1\r\ns=x\r\nc=IN IP4 0.0.0.0\r\nt=0 0\r\nm=video 0 RTP/AVP 96\r\na=rtpmap:96 H264/90000\r\na=fmtp:96 packetization-mode=1\r\na=control:trackID=0\r\n"
 
+// content: every packet carries its own sequence number in its payload; a reordered packet that is handed over
+// later must still be the datagram that arrived under that number
+func content(r *res, p *rtp.Packet) {
+	if len(p.Payload) != 4 || p.Payload[0] != 0x05 || p.Payload[1] != byte(p.SequenceNumber) || p.Payload[2] != 2 || p.Payload[3] != 3 {
+		r.WrongData = append(r.WrongData, fmt.Sprintf("seq %d delivered with payload %x", p.SequenceNumber, p.Payload))
+	}
+}
+
 func judge(r *res, want []uint16, wantLost uint64) {
+	if len(r.WrongData) > 0 {
+		r.Fail = "delivered-packet-carries-other-content"
+		r.Msg = fmt.Sprintf("arrival order %v: %v (every packet was sent with its own sequence number in its payload)", r.Sent, r.WrongData)
+		return
+	}
 	if fmt.Sprint(r.Delivered) != fmt.Sprint(want) {
 		r.Fail = "delivery-differs"
 		r.Msg = fmt.Sprintf("arrival order %v: the application saw %v, the property demands %v", r.Sent, r.Delivered, want)
@@ -176,6 +190,7 @@ func client(proto string, serverPorts bool) (r res) {
 	cli.OnPacketRTPAny(func(_ *description.Media, _ format.Format, p *rtp.Packet) {
 		mu.Lock()
 		r.Delivered = append(r.Delivered, p.SequenceNumber)
+		content(&r, p)
 		mu.Unlock()
 	})
 	if _, err = cli.Play(nil); err != nil {
@@ -226,6 +241,7 @@ func server(proto string) (r res) {
 	app.OnRTP = func(_ *gortsplib.ServerSession, _ *description.Media, _ format.Format, p *rtp.Packet) {
 		mu.Lock()
 		r.Delivered = append(r.Delivered, p.SequenceNumber)
+		content(&r, p)
 		mu.Unlock()
 	}
 	peer, err := env.Dial(nil)
